@@ -76,7 +76,7 @@ ImplEffs(effs, queue, w, used) ==
 \*        "base" (other BaseException); per-mode flag: does building the feedback fail inside pedal?
 Kind(m) == CASE m = "normal" -> "normal"
              [] m \in {"sysexit", "raiseSysExit"} -> "sysexit"
-             [] m \in {"baseKbd", "baseGen", "baseCustom"} -> "base"
+             [] m \in {"baseKbd", "baseGen", "baseCustom", "baseImport"} -> "base"
              [] OTHER -> "exception"
 \* C04's quantifier: everything except "base" modes and internal faults must be contained
 MustContain(m) == Kind(m) \in {"exception", "sysexit"} /\ m # "internalFault"
